@@ -42,10 +42,10 @@ const (
 
 type Entry struct {
 	Kind        EntryKind
-	Dur         DurLit  // KDuration
-	Start, End  TimeLit // KRange (both), KOpenRange (Start)
-	Dash        int     // KRange, KOpenRange
-	Placeholder int     // KOpenRange: number of '?'
+	Dur         DurLit   // KDuration
+	Start, End  TimeLit  // KRange (both), KOpenRange (Start)
+	Dash        int      // KRange, KOpenRange
+	Placeholder int      // KOpenRange: number of '?'
 	Summary     []string // first line ("" when absent) followed by the continuation lines
 	Line        int      // physical line of the entry (1-based)
 }
